@@ -97,25 +97,25 @@ package search
 
 // repository set: the name is in the set
 //@ func search.doSelectRepoSet$2
-//@   requires repo != nil && setQuery != nil
+//@   may_panic
 //@   ensures result == setQuery.Set[repo.Name]
 //@   assigns nothing
 
 // repository ids: the id is in the bitmap
 //@ func search.doSelectRepoSet$3
-//@   requires repo != nil && setQuery != nil
+//@   may_panic
 //@   ensures result == bmHas(setQuery.Repos, repo.ID)
 //@   assigns nothing
 
 // repository name pattern
 //@ func search.doSelectRepoSet$4
-//@   requires repo != nil && setQuery != nil
+//@   may_panic
 //@   ensures result == reMatch(setQuery.Regexp, repo.Name)
 //@   assigns nothing
 
 // branches-repos list: the id is in the bitmap of some entry
 //@ func search.doSelectRepoSet$5
-//@   requires repo != nil && setQuery != nil
+//@   may_panic
 //@   loop 1:
 //@     invariant forall k int :: 0 <= k && k <= $i ==> !bmHas(setQuery.List[k].Repos, repo.ID)
 //@     decreases len(setQuery.List) - $i
@@ -124,7 +124,7 @@ package search
 
 // metadata filter: the field is present and its value matches
 //@ func search.doSelectRepoSet$6
-//@   requires repo != nil && setQuery != nil
+//@   may_panic
 //@   ensures result == (repo.Metadata != nil && has(repo.Metadata, setQuery.Field) && reMatch(setQuery.Value, repo.Metadata[setQuery.Field]))
 //@   assigns nothing
 
